@@ -299,6 +299,7 @@ def programs(tier: str) -> list[dict]:
     progs += list(P.fam_advanced(rng, [(3,), (4, 3), (2, 3, 4)], 25))
     progs += list(P.fam_einsum())
     progs += list(P.fam_pairs())
+    progs += list(P.fam_pad())
     for p in progs:
         p["outs"] = {"out0": p["outs"]["out"]}
     n = 1200 if tier == "quick" else 20000
